@@ -697,3 +697,168 @@ func checkTipGuard(c *core.Ctx) {
 		}
 	})
 }
+
+// C20.R16 — shift strategy of the unsymmetric QR iteration. Shifted QR steps have fixed points: the single-shift
+// step with the last diagonal element as shift leaves [[2,1],[1,2]] unchanged, the Francis double-shift step leaves
+// [[2,1,0],[1,2,1],[0,1,2]] and cyclic permutation matrices unchanged; the deflation loops then never end. Two
+// structural conditions break the fixed points: (a) the shift that the single-shift step subtracts from the diagonal
+// is computed from all four entries of the trailing 2x2 block (Wilkinson shift), not from the last diagonal entry
+// alone; (b) the driver counts the steps for which the active block (p, q) did not change and hands the double-shift
+// step a flag derived from that count (ad hoc shifts).
+func checkQRShiftStrategy(c *core.Ctx) {
+	c.Rule("C20.R16", "unsymmetric QR iteration: the single-shift step computes its shift from the whole trailing 2x2 block, and the driver passes a stagnation-dependent flag to the double-shift step", 2)
+	p := c.Pkg("algorithm/qrAlgorithm")
+	if p == nil {
+		c.Unknown("C20.R16", "algorithm/qrAlgorithm", "package loaded", token.NoPos, "not loaded")
+		return
+	}
+	info := p.TypesInfo
+	// (a) QRstep
+	if fd := core.FindFunc(p, "QRstep"); fd == nil {
+		c.Unknown("C20.R16", "algorithm/qrAlgorithm.QRstep", "present", token.NoPos, "not found")
+	} else {
+		// the shift: second argument of <diag element>.Sub(<diag element>, shift) inside a loop
+		var shift types.Object
+		ast.Inspect(fd.Body, func(n ast.Node) bool {
+			fs, ok := n.(*ast.ForStmt)
+			if !ok || shift != nil {
+				return true
+			}
+			ast.Inspect(fs.Body, func(m ast.Node) bool {
+				ce, ok := m.(*ast.CallExpr)
+				if !ok || len(ce.Args) != 2 || calleeName(ce) != "Sub" {
+					return true
+				}
+				if id, ok := ast.Unparen(ce.Args[1]).(*ast.Ident); ok && shift == nil {
+					shift = info.Uses[id]
+				}
+				return true
+			})
+			return true
+		})
+		if shift == nil {
+			c.Unknown("C20.R16", "algorithm/qrAlgorithm.QRstep", "shift found", fd.Pos(), "no diagonal shift g.Sub(g, shift) found")
+		} else {
+			// element reads that reach the shift: transitive closure over `x.Op(args...)` statements writing x
+			deps := map[types.Object]bool{shift: true}
+			offdiag := map[string]bool{}
+			for changed := true; changed; {
+				changed = false
+				ast.Inspect(fd.Body, func(n ast.Node) bool {
+					ce, ok := n.(*ast.CallExpr)
+					if !ok {
+						return true
+					}
+					sel, ok := ast.Unparen(ce.Fun).(*ast.SelectorExpr)
+					if !ok {
+						return true
+					}
+					rid, ok := ast.Unparen(sel.X).(*ast.Ident)
+					if !ok || !deps[info.Uses[rid]] {
+						return true
+					}
+					for _, a := range ce.Args {
+						ast.Inspect(a, func(m ast.Node) bool {
+							switch x := m.(type) {
+							case *ast.Ident:
+								if o, ok := info.Uses[x].(*types.Var); ok && !deps[o] {
+									deps[o] = true
+									changed = true
+								}
+							case *ast.CallExpr:
+								if len(x.Args) == 2 && strings.HasSuffix(calleeName(x), "At") {
+									i, j := types.ExprString(x.Args[0]), types.ExprString(x.Args[1])
+									if i != j {
+										offdiag[i+","+j] = true
+									}
+								}
+							}
+							return true
+						})
+					}
+					return true
+				})
+				// locals defined from element reads: h12 := H22.ConstAt(n-2, n-1)
+				ast.Inspect(fd.Body, func(n ast.Node) bool {
+					as, ok := n.(*ast.AssignStmt)
+					if !ok || len(as.Lhs) != 1 || len(as.Rhs) != 1 {
+						return true
+					}
+					lid, ok := as.Lhs[0].(*ast.Ident)
+					if !ok {
+						return true
+					}
+					o := info.Defs[lid]
+					if o == nil {
+						o = info.Uses[lid]
+					}
+					if !deps[o] {
+						return true
+					}
+					if x, ok := ast.Unparen(as.Rhs[0]).(*ast.CallExpr); ok && len(x.Args) == 2 && strings.HasSuffix(calleeName(x), "At") {
+						i, j := types.ExprString(x.Args[0]), types.ExprString(x.Args[1])
+						if i != j && !offdiag[i+","+j] {
+							offdiag[i+","+j] = true
+							changed = true
+						}
+					}
+					return true
+				})
+			}
+			c.Check(len(offdiag) >= 2, "C20.R16", "algorithm/qrAlgorithm.QRstep", "shift computed from the trailing 2x2 block", fd.Pos(),
+				fmt.Sprintf("the shift %s is computed without the off-diagonal entries of the trailing 2x2 block (%d read): with the last diagonal entry alone as shift the step leaves blocks such as [[2,1],[1,2]] unchanged and the deflation loop never ends", shift.Name(), len(offdiag)))
+		}
+	}
+	// (b) driver
+	if fd := core.FindFunc(p, "qrAlgorithm"); fd == nil {
+		c.Unknown("C20.R16", "algorithm/qrAlgorithm.qrAlgorithm", "present", token.NoPos, "not found")
+	} else {
+		ok := false
+		var pos token.Pos = fd.Pos()
+		ast.Inspect(fd.Body, func(n ast.Node) bool {
+			fs, isFor := n.(*ast.ForStmt)
+			if !isFor {
+				return true
+			}
+			// counters incremented in this loop
+			counters := map[types.Object]bool{}
+			ast.Inspect(fs.Body, func(m ast.Node) bool {
+				switch x := m.(type) {
+				case *ast.IncDecStmt:
+					if id, ok := ast.Unparen(x.X).(*ast.Ident); ok && x.Tok == token.INC {
+						counters[info.Uses[id]] = true
+					}
+				case *ast.AssignStmt:
+					if x.Tok == token.ADD_ASSIGN && len(x.Lhs) == 1 {
+						if id, ok := ast.Unparen(x.Lhs[0]).(*ast.Ident); ok {
+							counters[info.Uses[id]] = true
+						}
+					}
+				}
+				return true
+			})
+			ast.Inspect(fs.Body, func(m ast.Node) bool {
+				ce, isCall := m.(*ast.CallExpr)
+				if !isCall || calleeName(ce) != "francisQRstep" {
+					return true
+				}
+				pos = ce.Pos()
+				for _, a := range ce.Args {
+					ast.Inspect(a, func(k ast.Node) bool {
+						if id, isId := k.(*ast.Ident); isId && counters[info.Uses[id]] {
+							// the counter must not be the loop's own induction variable
+							if fs.Post == nil {
+								ok = true
+							}
+						}
+						return true
+					})
+				}
+				return true
+			})
+			return true
+		})
+		c.Check(ok, "C20.R16", "algorithm/qrAlgorithm.qrAlgorithm", "stagnation flag handed to the double-shift step", pos,
+			"the driver calls francisQRstep without an argument that depends on a counter of unproductive steps: the double-shift step has fixed points ([[2,1,0],[1,2,1],[0,1,2]], cyclic permutations) on which the driver never ends")
+	}
+}
